@@ -180,6 +180,7 @@ def _carried(prog, b, v, slot):
 
 
 # ------------------------------------------------------------------------------------ R20.3
+@cd.cross_check('R20.3', 'the C20 compile_fail witnesses (R20.4)')
 def validation(chk, dprog, cfg):
     chk.rule("R20.3", "derive validation paths: each singleton scale_info attribute is stored only when its slot is still None, the other branch returns "
              "Err(\"Duplicate ..\"); unknown keyword -> Err(lookahead.error()); invalid capture_docs -> Err; bounds() leaving a parameter unbound -> Err; "
@@ -288,6 +289,12 @@ def validation(chk, dprog, cfg):
     rt = eb.return_term()
     alts = list(rt[1]) if rt[0] == "phi" else [rt]
     uni = [a for a in alts if is_adt_agg(a, "core::result::Result", "Err") and any(x[0] == "str" and "Union" in x[1] for x in mir.walk(a))]
+    if not uni:
+        # the struct / enum / union dispatch may live in a helper of expand
+        for p_ in cd.closure_tree(dprog, eb.path):
+            hb = dprog.body(p_)
+            hrt = hb.return_term()
+            uni += [a for a in (list(hrt[1]) if hrt[0] == "phi" else [hrt]) if is_adt_agg(a, "core::result::Result", "Err") and any(x[0] == "str" and "Union" in x[1] for x in mir.walk(a))]
     chk.expect(len(uni) == 1, "R20.3", "expand:union->Err", eb.where(), "Err(\"Unions not supported\") alternatives: %d" % len(uni), cfg)
     # entry point
     tb = dprog.body(dprog.fn("scale_info_derive::type_info"))
